@@ -30,6 +30,9 @@ type Obligation struct {
 	Status Status   `json:"status"` //
 	Detail string   `json:"detail,omitempty"`
 	Path   []string `json:"path,omitempty"` // for path rules: entry, blocks, offending exit
+	// Located: a note for an instance the rule found and examined but does not judge (the code is written in a form the
+	// rule has no model of). It counts towards the rule's floor - the anchor is there - and is neither held nor violated.
+	Located bool `json:"located,omitempty"`
 }
 
 // Result collects what one property check decided.
@@ -93,6 +96,11 @@ func (r *Result) undecided(rule, fn, construct, pos, detail string) {
 }
 func (r *Result) note(rule, fn, construct, pos, detail string) {
 	r.add(rule, fn, construct, Note, pos, detail)
+}
+
+// abstain: the instance was located but is written in a form the rule does not model: reported as a note, counted for the floor.
+func (r *Result) abstain(rule, fn, construct, pos, detail string) {
+	r.add(rule, fn, construct, Note, pos, "not judged: "+detail).Located = true
 }
 
 // ---- known findings ----
@@ -203,11 +211,15 @@ func (r *Result) finish(p *Program, verifDir string, start time.Time, seed int, 
 		undec = append(undec, kerr.Error())
 	}
 	perRule := map[string]map[Status]int{}
+	located := map[string]int{}
 	for _, o := range r.Obls {
 		if perRule[o.Rule] == nil {
 			perRule[o.Rule] = map[Status]int{}
 		}
 		perRule[o.Rule][o.Status]++
+		if o.Status == Note && o.Located {
+			located[o.Rule]++
+		}
 	}
 	var rules []string
 	for id := range r.RuleText {
@@ -217,7 +229,7 @@ func (r *Result) finish(p *Program, verifDir string, start time.Time, seed int, 
 	ruleRows := []map[string]any{}
 	for _, id := range rules {
 		c := perRule[id]
-		n := c[Held] + c[Violated] + c[Undecided]
+		n := c[Held] + c[Violated] + c[Undecided] + located[id]
 		if loadErr == nil && n < r.Floors[id] {
 			undec = append(undec, fmt.Sprintf("rule %s matched %d instances, below the floor %d confirmed by reading (anchor moved or extractor blind) — undecided", id, n, r.Floors[id]))
 		}
